@@ -88,7 +88,7 @@ func (n *Native) binary(pkgRel, pkgName string, harnesses []string, race bool) (
 	tf := filepath.Join(sub, "replay_test.go")
 	os.WriteFile(tf, []byte(sb.String()), 0644)
 	repl := map[string]string{
-		n.Root + "/pkg/zzverif/vsym/vsym.go":            n.VsymSrc,
+		n.Root + "/pkg/zzverif/vsym/vsym.go":               n.VsymSrc,
 		n.Root + "/" + pkgRel + "/zz_verif_replay_test.go": tf,
 	}
 	for k, v := range n.Extra {
